@@ -9,6 +9,8 @@ import Proofs.Resolve
 import Proofs.Respects
 import Proofs.Structure
 import Proofs.StructEdit
+import Proofs.Range
+import Proofs.MergeOpen
 namespace PM
 
 /-- a `liftSide` loop moves the outer position by at most one per level -/
@@ -173,5 +175,105 @@ theorem wrapStepR_inside (S : Schema) {doc : Node} {a b : Nat} {f t : RPos}
         refine ⟨gs, ge, _, rfl, rfl, rfl, ?_, ?_, by omega⟩
         · simp [Slice.wf]
         · simp only [Slice.size]; omega
+
+/-! ### nesting level: a splice that does not close deeper than the window's level keeps the window closed -/
+
+/-- the tokens in front of the content of the depth-`k` ancestor open exactly `k` nodes -/
+theorem balance_take_start {doc : Node} {pos : Nat} {r : RPos} (h : doc.resolve pos = some r) :
+    ∀ k, k ≤ r.depth → balance ((ftoks doc.kids).take (r.start k)) = k
+  | 0, _ => by simp [RPos.start]
+  | k + 1, hk => by
+    have R := resolve_resolved h
+    have ih := balance_take_start h k (by omega)
+    have hw := R.window_kids k (by omega)
+    have hn := R.window_node k (by omega)
+    have E := R.entry k (by omega)
+    have hp : (r.entry k).pos = r.start k + fsize ((r.node k).kids.take (r.index k)) := E.pos_eq
+    obtain ⟨ty, at_, m, kids, e⟩ := resolve_node_elem h k (by omega)
+    have hle := fsize_take_le (r.node k).kids (r.index k)
+    have h1 : ((ftoks doc.kids).drop (r.start k)).take (fsize ((r.node k).kids.take (r.index k))) =
+        (ftoks (r.node k).kids).take (fsize ((r.node k).kids.take (r.index k))) := by
+      rw [← hw, List.take_take, Nat.min_eq_left hle]
+    have h2 : ((ftoks doc.kids).drop (r.entry k).pos).take 1 = [Tok.op ty at_ m] := by
+      have : (((ftoks doc.kids).drop (r.entry k).pos).take (r.node (k + 1)).size).take 1 = [Tok.op ty at_ m] := by
+        rw [hn, e]; simp [Node.toks]
+      rw [List.take_take, e, Nat.min_eq_left (by simp [Node.size]; omega)] at this
+      exact this
+    rw [Resolved.start_succ, List.take_add, balance_append, h2, hp, List.take_add, balance_append, h1,
+      balance_take_boundary, ih]
+    simp [Tok.delta]
+
+/-- inside the content window of the depth-`k` ancestor the nesting level never drops below `k` -/
+theorem balance_in_ancestor {doc : Node} {pos : Nat} {r : RPos} (h : doc.resolve pos = some r)
+    (k : Nat) (hk : k ≤ r.depth) (j : Nat) (h1 : r.start k ≤ j) (h2 : j ≤ r.end_ k) :
+    (k : Int) ≤ balance ((ftoks doc.kids).take j) := by
+  have R := resolve_resolved h
+  have hw := R.window_kids k hk
+  have hb := balance_take_start h k hk
+  have e : ((ftoks doc.kids).drop (r.start k)).take (j - r.start k) =
+      (ftoks (r.node k).kids).take (j - r.start k) := by
+    rw [← hw, List.take_take, Nat.min_eq_left (by rw [Resolved.end_eq] at h2; omega)]
+  have := balance_prefix_nonneg (r.node k).kids (j - r.start k)
+  rw [show j = r.start k + (j - r.start k) by omega, List.take_add, balance_append, hb, e]
+  omega
+
+/-- the nesting level at a resolved position is its depth -/
+theorem balance_take_pos {doc : Node} {pos : Nat} {r : RPos} (h : doc.resolve pos = some r) :
+    balance ((ftoks doc.kids).take pos) = r.depth := by
+  have R := resolve_resolved h
+  rw [← depthAt_balance _ _ R.le, R.depth_eq]
+
+/-- **splicing tokens into a window**: if inside `[sk, ek]` the nesting level of `G` never drops below
+    `base`, the spliced-in tokens `X` (replacing `[F, T]`, `sk ≤ F ≤ T ≤ ek`) never take it below `base`
+    either and end at the level `G` has at `T`, then in the result the level never drops below `base`
+    inside the (shifted) window: no token of the window closes what was opened in front of it -/
+theorem splice_keeps_level (G X : List Tok) (sk ek F T : Nat) (base : Int)
+    (hFT : F ≤ T) (hsF : sk ≤ F) (hTe : T ≤ ek) (hek : ek ≤ G.length)
+    (hwin : ∀ j, sk ≤ j → j ≤ ek → base ≤ balance (G.take j))
+    (hX : ∀ i, base ≤ balance (G.take F) + balance (X.take i))
+    (hbal : balance (G.take F) + balance X = balance (G.take T)) :
+    ∀ j, sk ≤ j → j + (T - F) ≤ ek + X.length →
+      base ≤ balance ((G.take F ++ X ++ G.drop T).take j) := by
+  intro j h1 h2
+  have hl : (G.take F).length = F := by simp; omega
+  rw [List.append_assoc, List.take_append, hl, List.take_append, balance_append, balance_append,
+    List.take_take]
+  rcases Nat.lt_or_ge j F with h | h
+  · rw [Nat.min_eq_left (by omega), show j - F = 0 by omega]
+    simp only [List.take_zero, balance_nil, Nat.zero_sub, Int.add_zero]
+    exact hwin j h1 (by omega)
+  · rw [Nat.min_eq_right h]
+    rcases Nat.lt_or_ge X.length (j - F) with h' | h'
+    · rw [List.take_of_length_le (by omega : X.length ≤ j - F)]
+      have e : balance ((G.drop T).take (j - F - X.length)) =
+          balance (G.take (T + (j - F - X.length))) - balance (G.take T) := by
+        rw [List.take_add, balance_append]; omega
+      have := hwin (T + (j - F - X.length)) (by omega) (by omega)
+      rw [e]; omega
+    · rw [show j - F - X.length = 0 by omega]
+      simp only [List.take_zero, balance_nil, Int.add_zero]
+      exact hX _
+
+/-- **the step `split(pos, depth)` builds**: an insertion at `pos` of a well-formed slice open by
+    `depth` on both sides -/
+theorem splitStep_shape {doc : Node} {pos : Nat} (depth : Nat) (st : Step) (hdoc : doc.isLeaf = false)
+    (h : splitStep doc pos depth = .ok st) :
+    ∃ sl, st = .replace pos pos sl true ∧ sl.wf = true ∧ sl.openStart = depth ∧ sl.openEnd = depth ∧
+      sl.size = 2 * (depth : Int) := by
+  unfold splitStep at h
+  cases hr : doc.resolve pos with
+  | none => simp [hr] at h
+  | some r =>
+    simp only [hr] at h
+    cases hn : splitNodes r depth with
+    | none => simp [hn] at h
+    | some nodes =>
+      simp only [hn, Except.ok.injEq] at h
+      subst h
+      obtain ⟨hlen, hel⟩ := splitNodesFrom_spec hr hdoc depth _ nodes hn
+      have N := nestOut_nest nodes hel
+      rw [hlen] at N
+      refine ⟨_, rfl, nests_wf N N, rfl, rfl, ?_⟩
+      rw [nests_size N N]; omega
 
 end PM
